@@ -67,6 +67,10 @@ def apply_variant(sources: Dict[str, str], v: dict) -> Optional[Dict[str, str]]:
         from selftest.transforms import flip_else_module
 
         return {k: flip_else_module(t) for k, t in sources.items()}
+    if v.get("global") == "noop":
+        from selftest.transforms import noop_module
+
+        return {k: noop_module(t) for k, t in sources.items()}
     if v.get("global") == "swap":
         from selftest.transforms import swap_module
 
@@ -178,6 +182,8 @@ def run_for(prop: str, seed: int = 0, jobs: int = 16) -> dict:
                      "note": "every if/else with a plain else block written with the negated test and the arms swapped"})
     variants.append({"property": prop, "id": "%s-swap-independent-assignments" % prop, "kind": "silent", "rule": None, "edits": [], "global": "swap",
                      "note": "adjacent independent call-free assignments exchanged"})
+    variants.append({"property": prop, "id": "%s-insert-noop-statements" % prop, "kind": "silent", "rule": None, "edits": [], "global": "noop",
+                     "note": "`assert True` inserted at the start of every function body and every loop body"})
     for par in ("even", "odd"):
         variants.append({"property": prop, "id": "%s-rename-locals-%s-functions" % (prop, par), "kind": "silent", "rule": None, "edits": [], "global": "rename-%s" % par,
                          "note": "function-local variables renamed in every other function only (one-sided for sibling implementations)"})
